@@ -115,7 +115,9 @@ Fixpoint activate_aux (mode : smode) (me : slot) (i j : nat) (l : list slot) : l
   | [] => []
   | x :: r =>
     (if Nat.eqb i j then {| s_used := s_used x; s_group := s_group x; s_st := STARTED |}
-     else if s_used x && same_group mode me x then {| s_used := s_used x; s_group := s_group x; s_st := UNCONF |}
+     else if s_used x && same_group mode me x then      (* MasterConnection_deactivate: a started connection is stopped pending its
+                                                            acknowledgements, one that is not started stays as it is *)
+       {| s_used := s_used x; s_group := s_group x; s_st := if s_st x =? STARTED then UNCONF else s_st x |}
      else x) :: activate_aux mode me i (S j) r
   end.
 Definition activate (mode : smode) (l : list slot) (i : nat) : list slot :=
